@@ -2,6 +2,7 @@
 pub mod c01_keys;
 pub mod c01_offer;
 pub mod c01_signed;
+pub mod did;
 pub mod jose_headers;
 pub mod mutate;
 pub mod sd_fixtures;
